@@ -437,6 +437,11 @@ SUBS = {'reg_sequence': reg_sequence, 'mime_server_grad': mime_server_grad, 'gra
 TIMEOUTS = {k: 1200 for k in SUBS}
 
 
+# sub-spaces re-executed under other interpreter configurations (mc.core.CONFIGS): {configuration: {sub-space: stride}}
+# quick tier: every stride-th planned case, thorough tier: all planned cases
+CONFIG_PASSES = {'x64': {'grad_masks': 6, 'avg_loss': 6, 'hyp_losses': 6}}
+
+
 def plan(ctx):
   th = ctx.tier == 'thorough'
   ctx.rule = ('grad/model_grad: losses {sq, abs, sq*u(rng)} x regulariser {none, l2, l2 with centre} x B in 1..4 x all 2^B '
